@@ -182,6 +182,40 @@ theorem proof_accepted_partial (H : Bytes → Bytes) (ops : List Op) (vdb : DB) 
         simp
   · cases hpt
 
+/-- accumulator and bucket after `Add`ing the hashes `xs` one by one -/
+def addAll (H : Bytes → Bytes) (s : Acc × DB) (xs : List Bytes) : Acc × DB :=
+  xs.foldl (fun s x => ((s.1.add H s.2 x).1, (s.1.add H s.2 x).2.1)) s
+
+/-- **C28 (16-ary roots with carry).** After `Add`ing any `n` 32-byte hashes to the empty
+    accumulator, no `Add` has panicked, `Len = n`, and the numbers of hashes held by the root
+    nodes are exactly the base-16 digits of `n` (least significant first, no leading zero):
+    the roots are a base-16 counter, so their shape depends on `n` alone. -/
+theorem roots_are_base16_digits (H : Bytes → Bytes) (hlen : ∀ x, (H x).length = 32)
+    (xs : List Bytes) (hx : ∀ x ∈ xs, x.length = 32) (db : DB) :
+    (addAll H ({}, db) xs).1.len = xs.length ∧
+    (addAll H ({}, db) xs).1.roots.map nodeLen = digits16 xs.length := by
+  have key : ∀ (xs : List Bytes), (∀ x ∈ xs, x.length = 32) → ∀ (s : Acc × DB) (n : Nat),
+      s.1.len = n → WFRoots s.1.roots → s.1.roots.map nodeLen = digits16 n →
+      (addAll H s xs).1.len = n + xs.length ∧
+      (addAll H s xs).1.roots.map nodeLen = digits16 (n + xs.length) := by
+    intro xs
+    induction xs with
+    | nil => intro _ s n h1 _ h3; simpa [addAll] using ⟨h1, h3⟩
+    | cons x rest ih =>
+      intro hx s n h1 h2 h3
+      have hxl : x.length = 32 := hx x (by simp)
+      obtain ⟨a1, a2, a3⟩ := addAt_shape H hlen s.1.roots x s.2 hxl h2
+      have hstep : (s.1.add H s.2 x).1 = { len := n + 1, roots := (addAt H s.1.roots x s.2).1 } := by
+        simp only [Acc.add, a1, if_true, h1]
+      have := ih (fun y hy => hx y (by simp [hy]))
+        ((s.1.add H s.2 x).1, (s.1.add H s.2 x).2.1) (n + 1)
+        (by rw [hstep]) (by rw [hstep]; exact a2) (by rw [hstep]; simp only; rw [a3, h3, inc16_digits16])
+      simp only [addAll, List.foldl_cons, List.length_cons] at this ⊢
+      rw [show n + (rest.length + 1) = n + 1 + rest.length by omega]
+      exact this
+  have := key xs hx ({}, db) 0 rfl (by intro r hr; simp at hr) (by simp [digits16])
+  simpa using this
+
 /-- **C28 (header) — partial.** `GetMerkleHeader` and `Finalize` report the same header, and it
     depends only on `(Len, Roots)` — not on the tree bucket or on earlier finalisations.
     Full statement (NOT proved in Lean; checked on the real code by the oracle against an
